@@ -8,6 +8,7 @@ closure (shares of a closed room sum to 1), refinement independence, exact zeros
 back-facing patches, an independent solid-angle formula (Van Oosterom-Strackee on a triangle
 fan), invariance under vertex rotation / reversal, rigid motions and uniform scaling."""
 import numpy as np
+import pyfar as pf
 
 from common import Tok, run_driver, floats, cmp_float, case_hash, ulp_dist
 import framework as fw
@@ -591,6 +592,34 @@ def hidden_case(spec):
         j = int(np.argmax(zp))
         fail("visible_positive", "patch %d (centre %s) faces the source with a free line of sight but receives %r"
              % (j, radi.patches_center[j].tolist(), e[j].tolist()), patch=j)
+    # the same through the object's own stage, on an object that served another source before: a source
+    # at the same place except for the coordinate(s) that put it outside / on the other side of the blocker
+    pos_first = pos.copy()
+    if outside:
+        for kk in range(3):
+            if not (0 <= pos[kk] <= dims[kk]):
+                pos_first[kk] = float(rng.uniform(0.25, 0.75)) * dims[kk]
+    else:
+        pos_first[k] = ck + (ck - pos[k]) * 0.5 if 0.05 * dims[k] < ck + (ck - pos[k]) * 0.5 < 0.95 * dims[k] \
+            else float(rng.uniform(0.1, 0.9)) * dims[k]
+    obj = build_room(polys if outside else polys + [blocker], ps if outside else psb)
+    obj.init_source_energy(pf.Coordinates(*pos_first))
+    obj.init_source_energy(pf.Coordinates(*pos))
+    e_obj = np.asarray(obj._energy_init_source)
+    nz2 = expect_zero & np.any(e_obj.reshape(obj.n_patches, -1) != 0, axis=1)
+    if nz2.any():
+        j = int(np.argmax(nz2))
+        fail("hidden_zero_after_other_source",
+             "init_source_energy on an object that served the source %s before: patch %d (centre %s) is back-facing or "
+             "hidden from the new source %s but holds initial energy %r" % (
+                 pos_first.tolist(), j, obj.patches_center[j].tolist(), pos.tolist(),
+                 e_obj[j].reshape(-1)[:4].tolist()), patch=j, first_source=pos_first.tolist())
+    fresh = build_room(polys if outside else polys + [blocker], ps if outside else psb)
+    fresh.init_source_energy(pf.Coordinates(*pos))
+    if not np.array_equal(np.asarray(fresh._energy_init_source), e_obj):
+        fail("hidden_zero_after_other_source",
+             "initial energies after serving another source first differ from a fresh object's (max abs %.3g)"
+             % float(np.abs(np.asarray(fresh._energy_init_source) - e_obj).max()), first_source=pos_first.tolist())
     if expect_zero.any():
         out["nontrivial"].append(case_hash(tag))
     return out
